@@ -640,8 +640,9 @@ impl Meta {
 impl Prop for Meta {
     fn cases(&self, tier: Tier) -> u64 {
         let q = match self.id {
-            "C13" => 400,
-            _ => 4000,
+            "C13" => 800,
+            "C04" => 4000,
+            _ => 16_000,
         };
         match tier {
             Tier::Quick => q,
